@@ -63,6 +63,9 @@ sfd_listener_close(void *arg)
 	for (int i = 0; i < l->listen_cnt; i++) {
 		nni_sfd_close_fd(l->listen_q[i]);
 	}
+	// they are gone now: a second close (stop does one) must not
+	// close these descriptor numbers again
+	l->listen_cnt = 0;
 	nni_mtx_unlock(&l->mtx);
 }
 
